@@ -95,3 +95,79 @@ Example C04_nonvacuous :
   | _ => False
   end.
 Proof. vm_compute. split; reflexivity. Qed.
+
+(* ---- isolation of sibling fields (Proofs/ExecIsolation.v) ----
+   Two runs whose resolver oracles agree everywhere outside the subtree at fp -- in particular
+   one where something below fp fails and one where it does not -- compared field by field.
+   agree_outside fp o1 o2 := forall q, ~ prefix fp q -> o1 q = o2 q;
+   errs_out fp s / calls_out fp s := the errors / resolver invocations of s whose path is not
+   under fp, in recorded order. *)
+From GQL Require Import Proofs.ExecPaths Proofs.ExecIsolation Run.ExecRun.
+
+(* a request: every top-level field other than the one the runs differ under has the same
+   sub-response, and the errors and resolver invocations (arguments included) outside that
+   field's subtree are the same, provided neither run nulls the data itself *)
+Theorem C04_sibling_isolation : forall fuel S D opn inputs root or1 or2 tor k fp d1 s1 d2 s2,
+  prefix [PKey k] fp -> agree_outside fp or1 or2 ->
+  request fuel S D opn inputs root or1 tor = RDone (Some d1) s1 ->
+  request fuel S D opn inputs root or2 tor = RDone (Some d2) s2 ->
+  (forall k', k' <> k -> resp_at d1 [PKey k'] = resp_at d2 [PKey k']) /\
+  errs_out [PKey k] s1 = errs_out [PKey k] s2 /\
+  calls_out [PKey k] s1 = calls_out [PKey k] s2.
+Proof. exact request_isolation. Qed.
+Print Assumptions C04_sibling_isolation.
+
+(* the same for the selection set of any object value at any response path p, provided neither
+   run raises out of the selection set (which would null the enclosing position): same keys,
+   same (possibly still deferred) result for every sibling key *)
+Theorem C04_selection_isolation : forall fuel E1 E2 obj src g p k fp s fs1 s1 fs2 s2,
+  same_but_oracle E1 E2 -> prefix (p ++ [PKey k]) fp -> agree_outside fp (en_or E1) (en_or E2) ->
+  exec_groups fuel E1 obj src g p s = XOk fs1 s1 ->
+  exec_groups fuel E2 obj src g p s = XOk fs2 s2 ->
+  map fst fs1 = map fst fs2 /\
+  (forall k', k' <> k -> alookup k' fs1 = alookup k' fs2) /\
+  errs_out (p ++ [PKey k]) s1 = errs_out (p ++ [PKey k]) s2 /\
+  calls_out (p ++ [PKey k]) s1 = calls_out (p ++ [PKey k]) s2.
+Proof. exact selection_isolation. Qed.
+Print Assumptions C04_selection_isolation.
+
+(* and after the deferred values of the two results are forced *)
+Theorem C04_selection_isolation_forced : forall fuel fuel' E1 E2 obj src g p k fp s fs1 s1 fs2 s2 q1 s1' q2 s2',
+  same_but_oracle E1 E2 -> prefix (p ++ [PKey k]) fp -> agree_outside fp (en_or E1) (en_or E2) ->
+  exec_groups fuel E1 obj src g p s = XOk fs1 s1 ->
+  exec_groups fuel E2 obj src g p s = XOk fs2 s2 ->
+  dethunk fuel' E1 (QObj fs1) s1 = XOk q1 s1' ->
+  dethunk fuel' E2 (QObj fs2) s2 = XOk q2 s2' ->
+  exists ys1 ys2, q1 = QObj ys1 /\ q2 = QObj ys2 /\
+    map fst ys1 = map fst ys2 /\
+    (forall k', k' <> k -> alookup k' ys1 = alookup k' ys2) /\
+    errs_out (p ++ [PKey k]) s1' = errs_out (p ++ [PKey k]) s2' /\
+    calls_out (p ++ [PKey k]) s1' = calls_out (p ++ [PKey k]) s2'.
+Proof. exact selection_isolation_forced. Qed.
+Print Assumptions C04_selection_isolation_forced.
+
+(* the reason: an execution at path p consults the resolver oracle only at paths below p (the
+   dethunk pass: below the deferred values it forces), ... *)
+Theorem C04_oracle_locality : forall fuel E1 E2, same_but_oracle E1 E2 ->
+  (forall t nodes occs fpath p v s, agree_under p (en_or E1) (en_or E2) ->
+     complete fuel E1 t nodes occs fpath p v s = complete fuel E2 t nodes occs fpath p v s) /\
+  (forall obj occs p src s, agree_under p (en_or E1) (en_or E2) ->
+     exec_object fuel E1 obj occs p src s = exec_object fuel E2 obj occs p src s) /\
+  (forall obj src g p s, agree_under p (en_or E1) (en_or E2) ->
+     exec_groups fuel E1 obj src g p s = exec_groups fuel E2 obj src g p s) /\
+  (forall q s p, agree_under p (en_or E1) (en_or E2) -> thunks_ok p q ->
+     dethunk fuel E1 q s = dethunk fuel E2 q s).
+Proof. exact oracle_locality. Qed.
+Print Assumptions C04_oracle_locality.
+
+(* ... and never reads the state it extends: run from s ++ d it yields its run from d, with s in front *)
+Theorem C04_state_frame : forall fuel,
+  (forall E t nodes occs fpath p v s d,
+     complete fuel E t nodes occs fpath p v (sapp s d) = xlift s (complete fuel E t nodes occs fpath p v d)) /\
+  (forall E obj occs p src s d,
+     exec_object fuel E obj occs p src (sapp s d) = xlift s (exec_object fuel E obj occs p src d)) /\
+  (forall E obj src g p s d,
+     exec_groups fuel E obj src g p (sapp s d) = xlift s (exec_groups fuel E obj src g p d)) /\
+  (forall E q s d, dethunk fuel E q (sapp s d) = xlift s (dethunk fuel E q d)).
+Proof. exact frame_inv. Qed.
+Print Assumptions C04_state_frame.
